@@ -52,9 +52,14 @@ RULE = ('Hypothesis: FileSpec (1-5 dims of length 1-5, 1-5 numeric variables '
         'masked may instead hold the declared fill value (Pseudo2NetCDF '
         'convention) and convolve_dim on masked data may follow either '
         'numpy.ma.convolve semantics (mask propagated / masked elements '
-        'excluded).  Thorough tier adds ioapi_base.applyAlongDimensions on '
-        'generated IOAPI files (1/8 of cases; data of the listed variables '
-        'and TSTEP/LAY/ROW/COL lengths only).  Non-trivial: '
+        'excluded).  1/10 of the quick tier (1/8 thorough) runs '
+        'ioapi_base.applyAlongDimensions on generated gridded IOAPI files '
+        '(routes arrays/griddesc), 2/3 of them after sliceDimensions(TSTEP='
+        'index list) so that the time axis is irregular; reducers or '
+        'callables on a subset of LAY/ROW/COL/TSTEP; judged: dimension '
+        'lengths, data of the listed variables, and bit identity with the '
+        'input of every variable lacking all named dimensions (TFLAG '
+        'included).  Non-trivial: '
         'masked variable reduced over an axis that is neither first nor '
         'last, or a length-changing callable, or a variable lacking the '
         'named dimensions present.  Distinct by sha1 of the case spec.')
@@ -153,24 +158,44 @@ def cases(draw, tier='quick'):
 
 @st.composite
 def ioapi_cases(draw):
+    """gridded IOAPI file (routes arrays / griddesc), optionally with an
+    irregular time axis made by an index-list selection on TSTEP, x
+    functions on a subset of TSTEP/LAY/ROW/COL: named reducers or callables
+    on any of them"""
     from .. import ioapispec
     sp = draw(ioapispec.ioapispecs(routes=('arrays', 'griddesc'),
-                                   ftypes=(1,), max_n=4, max_steps=4,
+                                   ftypes=(1,), max_n=4, max_steps=6,
                                    max_vars=3))
-    dl = dict(TSTEP=sp['nt'], LAY=sp['nz'], ROW=sp['ny'], COL=sp['nx'])
+    tsel = None
+    if sp['nt'] >= 3 and draw(st.integers(0, 2)) > 0:
+        idx = draw(st.lists(st.integers(0, sp['nt'] - 1),
+                            min_size=min(3, sp['nt'] - 1),
+                            max_size=sp['nt'] - 1, unique=True))
+        tsel = sorted(idx)
+    nt = len(tsel) if tsel else sp['nt']
+    dl = dict(TSTEP=nt, LAY=sp['nz'], ROW=sp['ny'], COL=sp['nx'])
     k = draw(st.integers(1, 3))
-    chosen = draw(st.permutations(sorted(dl)))[:k]
+    pool = ['LAY', 'ROW', 'COL', 'LAY', 'ROW', 'COL', 'TSTEP']
+    chosen = []
+    for d in draw(st.permutations(pool)):
+        if d not in chosen:
+            chosen.append(d)
+    chosen = chosen[:k]
     fl = []
     for d in chosen:
-        if d == 'TSTEP' or draw(st.booleans()):
+        if draw(st.integers(0, 2)) > 0:
             fl.append([d, ['red', draw(st.sampled_from(REDUCERS))]])
         else:
             fl.append([d, draw(funcs(dl[d]).filter(
                 lambda f: f[0] != 'maconv'))])
-    return dict(entry='ioapi', ioapi=sp, funcs=fl, form='plain')
+    return dict(entry='ioapi', ioapi=sp, tsel=tsel, funcs=fl, form='plain')
 
 
 def strategy(tier):
+    if tier == 'quick':
+        return st.one_of(cases(tier), cases(tier), cases(tier), cases(tier),
+                         cases(tier), cases(tier), cases(tier), cases(tier),
+                         cases(tier), ioapi_cases())
     if tier == 'thorough':
         return st.one_of(cases(tier), cases(tier), cases(tier), cases(tier),
                          cases(tier), cases(tier), cases(tier),
@@ -429,23 +454,52 @@ def check_string_form(case):
 
 
 def check_ioapi(case):
-    """ioapi_base.applyAlongDimensions: only the data of the listed
-    variables and the lengths of TSTEP/LAY/ROW/COL are judged here (the
-    metadata belong to C10)"""
+    """ioapi_base.applyAlongDimensions on a gridded IOAPI file, optionally
+    after sliceDimensions(TSTEP=[index list]) (irregular time axis).  Judged:
+    lengths of TSTEP/LAY/ROW/COL, the data of the listed variables, and
+    every variable that lacks all named dimensions - TFLAG included - which
+    must be bit-identical to the input file's.  Other metadata belong to
+    C10."""
     from .. import ioapispec
     r = Result()
     sp = case['ioapi']
+    tsel = case.get('tsel')
     fl = [[d, list(fd)] for d, fd in case['funcs']]
     fmap = S.OD((d, fd) for d, fd in fl)
     r.label('entry:ioapi', 'route:' + sp['route'], 'ndims:%d' % len(fl))
     r.label(*['f:' + (fd[0] if fd[0] != 'red' else 'red:' + fd[1])
               for d, fd in fl])
     f = ioapispec.build(sp)
-    kw = S.OD((d, lib_func(fd)) for d, fd in fl)
     dims = ioapispec.STD_DIMS[1]
-    dl = dict(zip(dims, ioapispec.var_shape(sp)))
+    shape = list(ioapispec.var_shape(sp))
+    if tsel:
+        irregular = len(set(np.diff(tsel).tolist())) > 1 or tsel[0] != 0 \
+            or (len(tsel) > 1 and tsel[1] - tsel[0] != 1)
+        r.label('time-axis:' + ('irregular' if len(set(
+            np.diff(tsel).tolist())) > 1 else 'index-list'))
+        ok, f = guard(r, 'ioapi-slice-raises',
+                      lambda: f.sliceDimensions(TSTEP=list(tsel)))
+        if not ok:
+            # selecting the time steps is C02/C11 business: not judged here
+            r.failures.pop()
+            r.rejected = True
+            return r
+        shape[0] = len(tsel)
+    else:
+        r.label('time-axis:regular')
+    kw = S.OD((d, lib_func(fd)) for d, fd in fl)
+    dl = dict(zip(dims, shape))
+    # variables of the INPUT that lack every named dimension
+    before = S.OD()
+    for k_, v_ in f.variables.items():
+        if not any(d in fmap for d in v_.dimensions):
+            before[k_] = (tuple(v_.dimensions), A.plain(v_[...]))
+    if 'TFLAG' in before:
+        r.label('TFLAG-lacks-named-dims')
+        if any(fd[0] == 'red' for d, fd in fl):
+            r.label('TFLAG-lacks-dims+named-reducer')
     r.nontrivial = any(fd[0] != 'red' and out_len(fd, dl[d]) != dl[d]
-                       for d, fd in fl) or len(fl) >= 2
+                       for d, fd in fl) or len(fl) >= 2 or bool(before)
     ok, out = guard(r, 'apply-raises',
                     lambda: f.applyAlongDimensions(**kw))
     if not ok:
@@ -459,13 +513,28 @@ def check_ioapi(case):
                       else None, want), klass='ioapi')
     if r.failures:
         return r
+    for name, (vd, arr) in before.items():
+        if name not in out.variables:
+            r.fail('var-names', 'ioapi: variable %s missing' % name,
+                   klass='ioapi')
+            continue
+        msg = S.cmp_array(out.variables[name], arr,
+                          'ioapi: untouched variable %s%r' % (name, vd),
+                          bits=True)
+        if msg:
+            r.fail('untouched-data', msg, klass='ioapi/' + (
+                'TFLAG' if name == 'TFLAG' else 'other'))
     for name in sp['vars']:
         if name not in out.variables:
             r.fail('var-names', 'ioapi: variable %s missing' % name)
             continue
-        mv = S.MVar(name, dims, ioapispec.data_of(sp, name), S.OD())
+        data = ioapispec.data_of(sp, name)
+        if tsel:
+            data = data[list(tsel)]
+        mv = S.MVar(name, dims, data, S.OD())
         axes = [(i, d) for i, d in enumerate(dims) if d in fmap]
-        judge_var(r, name, mv, out.variables[name], axes, fmap)
+        if axes:
+            judge_var(r, name, mv, out.variables[name], axes, fmap)
     return r
 
 
